@@ -373,6 +373,8 @@ def map_raise(ctx: Ctx) -> None:
     for r in raises:
         to_raise_exit = any(s == cfg.raise_ for s, _ in r.succ)
         ctx.ob(d, r.stmt, to_raise_exit, "the re-raise propagates out of the generator (no enclosing handler swallows it)", sel="raise:propagates")
+    if m.twin:
+        ctx.ob(d, exc_br.stmt, bool(exits), f"with backups (`{m.twin}`) a failed task whose twin may still succeed is set aside, not raised" + ("" if exits else " — every path through the exception branch raises: one failed attempt ends the map although its twin is still running or succeeded"), sel="raise:suppress-exists")
     for e in exits:
         facts = facts_at(cfg, e.id)
         guarded = False
@@ -600,6 +602,35 @@ def map_submit(ctx: Ctx) -> None:
             sel=f"submit:{ctx.anon(d, st, 40)}",
         )
     ctx.need(n >= 2, f"only {n} registrations of new futures inside the main loop found")
+    # batch refill: what is submitted inside the loop is the *next* batch — a value taken
+    # from the batch iterator inside the loop — and it is submitted exactly when there is one
+    for c in d.own_nodes():
+        if not (isinstance(c, ast.Call) and m.cfg.has(c) and m.cfg.in_loop(m.cfg.node_of(c), m.main.id) and c.args and isinstance(c.args[0], ast.Name)):
+            continue
+        if not (isinstance(c.func, ast.Name) and c.func.id in d.params and not c.func.id.startswith("create_backup")):
+            continue
+        if any(isinstance(a, (ast.List, ast.Tuple)) for a in c.args):
+            continue
+        # c = create_futures_func(<batch var>, …) in the main loop
+        bv = c.args[0].id
+        at = m.cfg.node_of(c)
+        defs = m.fl.rdefs(bv, at)
+        if not defs or not any(isinstance(d_.value, ast.Call) and isinstance(d_.value.func, ast.Name) and d_.value.func.id == "next" for d_ in defs):
+            continue
+        fresh = all(m.cfg.in_loop(d_.node, m.main.id) and isinstance(d_.value, ast.Call) and isinstance(d_.value.func, ast.Name) and d_.value.func.id == "next" for d_ in defs)
+        ctx.ob(d, c, fresh, f"the batch submitted inside the loop (`{bv}`) is taken from the batch iterator inside the loop" + ("" if fresh else " — a definition from before the loop reaches the submission: the first batch is submitted again"), sel="submit:next-batch")
+        has_default = all(len(d_.value.args) >= 2 for d_ in defs if isinstance(d_.value, ast.Call))
+        avail = None
+        for t, pol, b in m.cfg.branch_conditions(at):
+            if not m.cfg.in_loop(b, m.main.id):
+                continue
+            for fact, fp in conjuncts(t, pol):
+                if isinstance(fact, ast.Compare) and isinstance(fact.left, ast.Name) and fact.left.id == bv and isinstance(fact.comparators[0], ast.Constant) and fact.comparators[0].value is None:
+                    avail = fp if isinstance(fact.ops[0], ast.IsNot) else (not fp) if isinstance(fact.ops[0], ast.Is) else avail
+                elif isinstance(fact, ast.Name) and fact.id == bv:
+                    avail = fp
+        ok = avail is True or (avail is None and not has_default)
+        ctx.ob(d, c, ok, f"the next batch is submitted exactly when the iterator yielded one (`{bv} is not None`)" + ("" if ok else " — the test is missing or inverted: remaining inputs are never submitted (the map ends without their results), or `None` is submitted"), sel="submit:when-available")
 
 
 @rule("MAP-BACKUP-1", props=["C08"], floor=2)
